@@ -534,7 +534,16 @@ def r4(ctx, rep):
 def r5(ctx, rep):
     rep.rule("C11.R5", "sorts that stabilise a hash iteration use a total key (the element / map key) or a key reviewed as unique", floor=8)
     rev = reviewed("c11_sort_keys.json")
+
+    def canon(k):
+        """a one-parameter key closure with its parameter renamed to `x` (`|e| e.1.1` == `|entry| entry.1.1`)"""
+        m_ = re.match(r"^\|\(?(\w+)\)?\| ?(.*)$", k or "")
+        return "|x| " + re.sub(r"\b" + re.escape(m_.group(1)) + r"\b", "x", m_.group(2)) if m_ else k
+    for row_ in rev.values():
+        if "key_expr" in row_:
+            row_["key_expr"] = canon(row_["key_expr"])
     for key, sk, file, line, owner in getattr(ctx, "_c11_sort_keys", []):
+        sk = canon(sk)
         k2 = "sortkey:" + key[len("hash:"):]
         if sk == "<element>":
             rep.ok(k2, "sorts the elements themselves (total order)")
